@@ -330,13 +330,9 @@ class Ctx:
         env["RUSTFLAGS"] = "--cfg %s -Awarnings" % GUARD
         env.setdefault("CARGO_INCREMENTAL", "0")
         with Lock("cargo"):
-            want = open(lock_src).read()
-            stamp = os.path.join(CACHE, "repo_lock.sha")
-            h = hashlib.sha256(want.encode()).hexdigest()
-            if not os.path.exists(lock_dst) or not os.path.exists(stamp) or open(stamp).read() != h:
-                shutil.copy(lock_src, lock_dst)
-                with open(stamp, "w") as f:
-                    f.write(h)
+            # always start from /repo's full lock file: cargo prunes harness/Cargo.lock to the current
+            # members, and re-resolving a newly added dependency offline can pick a yanked version
+            shutil.copy(lock_src, lock_dst)
             rc, out = sh("timeout %d cargo build --offline -p %s 2>&1" % (timeout, crate),
                          cwd=HARNESS, env=env, timeout=timeout + 30)
         if rc != 0:
